@@ -5,16 +5,23 @@ Decides (from the syntax trees, nothing is run):
       reaches `pool.convert_requests_to_resources` only through branch edges that guarantee pool.cloud == cloud,
       pool.preemptible == preemptible, pool.label == pool_label (and pool.worker_type == worker_type when the method takes one);
       select_job_private rejects a foreign cloud
-  R2  PoolConfig.convert_requests_to_resources: every placement it returns is guarded by `cores_mcpu <= self.worker_cores * 1000`
-      on the returned core count, its storage is `requested_storage_bytes_to_actual_storage_gib(self.cloud, storage_bytes, …)` and
-      not None, and in each cloud branch the memory request raises the core count *before* the granted memory is derived from it
+  R2  PoolConfig.convert_requests_to_resources: every placement it returns is guarded by `cores <= 1000 * self.worker_cores` (the bound compared as a
+      monomial, locals followed) on the returned core count, its storage is `requested_storage_bytes_to_actual_storage_gib(self.cloud, storage_bytes, …)`
+      and not None.  Memory clause, decided on CLOSED FORMS: every feasible path to a returned placement is executed symbolically (engines/c12sym: locals
+      substituted, one case per branch combination, same-class helper methods spliced in, nothing is run) and pure helpers - per cloud or shared, of any
+      module, with an if/else over the cloud inside or not - are seen through; the granted cores C must be >= max(requested cores, T(requested memory))
+      and never lowered afterwards, the granted memory M must be E(C) of the FINAL C (not of an earlier stage) and never lowered, T and E must use the
+      per-core memory of self.worker_type
   R3  a request is rejected only after all pools were considered (no `return None` / break inside the pool loops),
       `select_inst_coll` dispatches the four (worker_type, machine_type) cases to the right selector (truth table),
       and the front end turns `None` into HTTP 400 before using the placement
   R4  positional / keyword plumbing: placements are written and read as (name, cores, memory, storage) everywhere; arguments are
       passed to the like-named parameter at every call in the chain front end -> select_inst_coll -> selector -> convert
-  R5  granted >= requested *shapes*: <cloud>_adjust_cores_for_memory_request returns max(cores, ceil(…memory…)); every non-None
-      return of <cloud>_requested_to_actual_storage_bytes is >= the request; bytes -> GiB rounds up (math.ceil)
+  R5  granted >= requested, numerically as far as normal forms go: the helper that raises the cores returns max(cores, <memory-driven minimum>) and that minimum
+      rounds up; the WHOLE computation from the requested bytes to the core minimum (caller arguments composed with the helpers: a direction analysis
+      exact | up | down | mixed over + - * / // >> ceil floor int round and the ceiling idioms) never rounds the request down - `memory_bytes >> 20` before a
+      ceiling division is `mixed`; the monomial of request -> cores times the monomial of cores -> memory is >= 1 with the per-core quantities cancelling
+      (a MB / MiB mix-up gives 15625/16384); every non-None return of <cloud>_requested_to_actual_storage_bytes is >= the request; bytes -> GiB rounds up
   R6  cloud dispatch agreement: in every `cloud == 'gcp'|'azure'` branch of the anchored modules only that cloud's helpers are used
   R2 (provenance)  reaching definitions of the returned cores / memory / storage: after being derived from the request they are never lowered (min / subtraction /
       division are violations) nor replaced by a value independent of the request unless every path to the replacement passes a test that bounds the request by
@@ -27,7 +34,7 @@ Decides (from the syntax trees, nothing is run):
       and of every function a live container is passed to (may-alias by reaching definitions, callee summaries): X.clear() / delete-every-key loop / an empty
       container published in self.<attr>, then a suspension point (await / async for / async with) before a synchronous refill = a submission handled in that
       window selects against an empty or partly filled configuration and rejects a satisfiable request.
-Does not decide: the rounding arithmetic itself (floats, log2), the per-core memory tables.
+Does not decide: float rounding error, adjust_cores_for_packability (log2; trusted to round up), the per-core memory tables; helpers that return tuples / loops (declined).
 """
 from __future__ import annotations
 
@@ -35,7 +42,7 @@ import ast
 from fractions import Fraction
 from typing import Dict, List, Optional, Sequence, Set, Tuple
 
-from engines import absdom, guards, inline, pyfacts as pf
+from engines import absdom, c12sym, guards, inline, pyfacts as pf
 from engines.common import AnalysisError, Ctx, short
 from engines.guards import Facts
 
@@ -44,12 +51,14 @@ META = dict(
     text='CFG must-pass-through with branch polarity for the pool filters and the fits-one-worker guard, a truth table of select_inst_coll, '
          'def-use plumbing checks (like-named argument/parameter, tuple role order) across the selection chain, and shape typing of the '
          'monotone helpers (max / ceil); reaching-definition provenance of the granted cores / memory / storage (never lowered, never replaced by a request-independent value '
-         'unless a test bounds the request by it - bounds compared as rational intervals); typestate of the live configuration containers across suspension points of refresh '
-         'and its loaders.  Level `other`: the numeric clause (granted >= requested under float rounding) is not decided.',
+         'unless a test bounds the request by it - bounds compared as rational intervals); path-wise symbolic execution of convert_requests_to_resources to closed forms of the '
+         'granted cores / memory with helpers inlined, on which the order (raise before derive, derive from the final cores), the rounding direction of request -> core minimum and '
+         'the unit monomials are decided; typestate of the live configuration containers across suspension points of refresh '
+         'and its loaders.  Level `other`: float rounding error and the packability rounding are not decided.',
     note='Trusted: CPython ast; engines/pyfacts CFG; engines/guards. Not decided: float rounding in adjust_cores_for_packability and the cores<->memory conversions; '
          'contents of the machine-type tables.',
     technique='static analysis: CFG dominance with edge polarity + sibling agreement + truth table + def-use plumbing + reaching definitions with interval bounds + '
-              'typestate over the CFG with callee summaries',
+              'symbolic path execution to closed forms + rounding-direction and monomial (unit) normal forms + typestate over the CFG with callee summaries',
     design_ref='DESIGN.md §3 C12',
 )
 
@@ -250,23 +259,50 @@ def _check_call_names(ctx: Ctx, m: pf.Module, qual: str, c: ast.Call, callee_par
 
 
 def _fits_fact(e: ast.AST, pol: bool, var: str) -> Optional[str]:
-    """'ok' if (e,pol) says var <= self.worker_cores*1000; 'strict' / 'other' for related but different tests; None if unrelated."""
+    """'ok' if (e,pol) says var <= 1000 * self.worker_cores (the bound is compared as a monomial: any spelling of the product); 'strict' (<), 'loose' / 'tight' (another
+    multiple of self.worker_cores), 'other' for related tests that are not understood; None if unrelated."""
     if not (isinstance(e, ast.Compare) and len(e.ops) == 1):
         return None
-    l, r = pf.nsrc(e.left), pf.nsrc(e.comparators[0])
-    W = ('self.worker_cores * 1000', '1000 * self.worker_cores')
-    if 'worker_cores' not in l + r:
+    if 'worker_cores' not in pf.nsrc(e):
         return None
     op = type(e.ops[0])
-    if l == var and r in W:
+    a, b = e.left, e.comparators[0]
+    if isinstance(a, ast.Name) and a.id == var:
+        bound = b
         rel = {ast.LtE: ('ok', None), ast.Lt: ('strict', None), ast.Gt: (None, 'ok'), ast.GtE: (None, 'strict')}.get(op)
-    elif r == var and l in W:
+    elif isinstance(b, ast.Name) and b.id == var:
+        bound = a
         rel = {ast.GtE: ('ok', None), ast.Gt: ('strict', None), ast.Lt: (None, 'ok'), ast.LtE: (None, 'strict')}.get(op)
     else:
         return 'other'
-    if rel is None:
+    mf = _monoform(bound, '__none__')
+    if rel is None or mf is None or mf[1] != {'self.worker_cores': 1}:
         return 'other'
-    return (rel[0] if pol else rel[1]) or 'other-polarity'
+    got = (rel[0] if pol else rel[1]) or 'other-polarity'
+    if got in ('ok', 'strict') and mf[0] != 1000:
+        return 'loose' if mf[0] > 1000 else 'tight'
+    return got
+
+
+def _expand_except(fn: pf.FuncDef, e: ast.AST, keep: Sequence[str], depth: int = 3) -> ast.AST:
+    """e with the single-definition locals of fn replaced by their definitions, except the names in `keep`"""
+    import copy
+    params = {a.arg for a in fn.args.posonlyargs + fn.args.args + fn.args.kwonlyargs}
+
+    class S_(ast.NodeTransformer):
+        def __init__(self, d: int):
+            self.d = d
+
+        def visit_Name(self, node: ast.Name):
+            if isinstance(node.ctx, ast.Load) and node.id not in params and node.id not in keep and self.d > 0:
+                dd = pf.single_def(fn, node.id)
+                if dd is not None and isinstance(dd, ast.expr) and not isinstance(dd, (ast.Await, ast.Yield, ast.YieldFrom)):
+                    return S_(self.d - 1).visit(copy.deepcopy(dd))
+            return node
+
+        def visit_Lambda(self, node):
+            return node
+    return S_(depth).visit(copy.deepcopy(e))
 
 
 # --------------------------------------------------------------------------------------
@@ -402,6 +438,13 @@ class IvEval:
                 if isinstance(e.op, ast.FloorDiv):
                     lo, hi = _mono(lo, math.floor), _mono(hi, math.floor)
                 return Iv(lo, hi)
+            if isinstance(e.op, (ast.LShift, ast.RShift)):
+                if b.lo != b.hi or not _fin(b.lo) or b.lo.denominator != 1 or not 0 <= b.lo <= 128:
+                    return _top()
+                f2 = Fraction(2) ** int(b.lo)
+                if isinstance(e.op, ast.LShift):
+                    return Iv(a.lo * f2 if _fin(a.lo) else a.lo, a.hi * f2 if _fin(a.hi) else a.hi)
+                return Iv(_mono(a.lo / f2 if _fin(a.lo) else a.lo, math.floor), _mono(a.hi / f2 if _fin(a.hi) else a.hi, math.floor))
             if isinstance(e.op, ast.Pow):
                 if a.lo == a.hi and _fin(a.lo) and a.lo >= 1:          # constant base >= 1: monotone in the exponent
                     def p(x):
@@ -571,6 +614,8 @@ def _rel_prev(e: ast.AST, var: str) -> str:
                 if side in ('ge', 'lower') and k is not None and k >= 0:
                     return side if k >= 1 else 'lower'
             return 'unknown'
+        if isinstance(e.op, ast.LShift) and l in ('ge', 'lower') and r == 'indep' and kr is not None and kr >= 0:
+            return l          # scaling up by 2**k
         if isinstance(e.op, (ast.Div, ast.FloorDiv, ast.RShift)) and l in ('ge', 'lower') and r == 'indep':
             if isinstance(e.op, ast.RShift):
                 return 'lower' if kr is None or kr > 0 else l
@@ -598,6 +643,69 @@ def _other_operands(e: ast.AST, var: str) -> List[ast.AST]:
     return out
 
 
+def _branchy_return(body: Sequence[ast.stmt]) -> Optional[ast.expr]:
+    """The value returned by a helper whose body is assignments, `if c: x = A else: x = B` arms that assign the same locals, and early returns
+    (`if c: return A` followed by the rest), as ONE expression with conditional sub-expressions (A if c else B).  None: not such a body."""
+    import copy
+
+    def sub(e: ast.AST, env: Dict[str, ast.expr]) -> ast.expr:
+        class S(ast.NodeTransformer):
+            def visit_Name(self, node):
+                return copy.deepcopy(env[node.id]) if isinstance(node.ctx, ast.Load) and node.id in env else node
+        return S().visit(copy.deepcopy(e))
+
+    def assigns(stmts: Sequence[ast.stmt], env: Dict[str, ast.expr]) -> Optional[Dict[str, ast.expr]]:
+        out = dict(env)
+        for st in stmts:
+            if isinstance(st, ast.Assert) or (isinstance(st, ast.Expr) and isinstance(st.value, ast.Constant)) or isinstance(st, ast.Pass):
+                continue
+            if isinstance(st, ast.Assign) and len(st.targets) == 1 and isinstance(st.targets[0], ast.Name):
+                out[st.targets[0].id] = sub(st.value, out)
+            elif isinstance(st, ast.AnnAssign) and isinstance(st.target, ast.Name) and st.value is not None:
+                out[st.target.id] = sub(st.value, out)
+            else:
+                return None
+        return out
+
+    def run(stmts: Sequence[ast.stmt], env: Dict[str, ast.expr], depth: int) -> Optional[ast.expr]:
+        if depth <= 0:
+            return None
+        env = dict(env)
+        for i, st in enumerate(stmts):
+            if isinstance(st, ast.Return):
+                return sub(st.value, env) if st.value is not None else None
+            if isinstance(st, ast.If):
+                test = sub(st.test, env)
+                ends = lambda b: bool(b) and isinstance(b[-1], (ast.Return, ast.Raise))  # noqa: E731
+                if ends(st.body) or ends(st.orelse):
+                    rest = list(stmts[i + 1:])
+                    a = run(list(st.body) + ([] if ends(st.body) else rest), env, depth - 1) if not (st.body and isinstance(st.body[-1], ast.Raise)) else None
+                    b = run(list(st.orelse) + ([] if ends(st.orelse) else rest), env, depth - 1) if not (st.orelse and isinstance(st.orelse[-1], ast.Raise)) else None
+                    if st.body and isinstance(st.body[-1], ast.Raise):
+                        return b
+                    if st.orelse and isinstance(st.orelse[-1], ast.Raise):
+                        return a
+                    if a is None or b is None:
+                        return None
+                    return ast.IfExp(test=test, body=a, orelse=b)
+                ea, eb = assigns(st.body, env), assigns(st.orelse, env)
+                if ea is None or eb is None:
+                    return None
+                for k in set(ea) | set(eb):
+                    va, vb = ea.get(k), eb.get(k)
+                    if va is None or vb is None:
+                        continue          # bound on one arm only: unusable afterwards, a later read makes the result None through the check below
+                    env[k] = va if pf.nsrc(va) == pf.nsrc(vb) else ast.IfExp(test=copy.deepcopy(test), body=va, orelse=vb)
+                continue
+            e2 = assigns([st], env)
+            if e2 is None:
+                return None
+            env = e2
+        return None
+    out = run(list(body), {}, 4)
+    return ast.fix_missing_locations(out) if out is not None else None
+
+
 def _inline_pred(mods: List[pf.Module], e: ast.AST, depth: int = 3) -> Tuple[ast.AST, List[pf.Module]]:
     """A call of a repository function whose body is straight-line assignments and one `return <expr>` is replaced by that expression with the arguments
     substituted (names of the callee's module are looked up there: the module is added to the search list)."""
@@ -621,10 +729,14 @@ def _inline_pred(mods: List[pf.Module], e: ast.AST, depth: int = 3) -> Tuple[ast
             continue
         m2, fn = r
         body = [s for s in fn.body if not (isinstance(s, ast.Expr) and isinstance(s.value, ast.Constant)) and not isinstance(s, ast.Assert)]
-        if not body or not isinstance(body[-1], ast.Return) or body[-1].value is None or fn.args.vararg or fn.args.kwarg:
+        if fn.args.vararg or fn.args.kwarg:
             return e, mods
-        if any(not (isinstance(s, (ast.Assign, ast.AnnAssign))) for s in body[:-1]):
-            return e, mods
+        branchy = _branchy_return(body) if any(isinstance(s, ast.If) for s in body) else None
+        if branchy is None:
+            if not body or not isinstance(body[-1], ast.Return) or body[-1].value is None:
+                return e, mods
+            if any(not (isinstance(s, (ast.Assign, ast.AnnAssign))) for s in body[:-1]):
+                return e, mods
         ps = [a.arg for a in list(fn.args.posonlyargs) + list(fn.args.args)]
         if is_self:
             ps = ps[1:]
@@ -634,7 +746,7 @@ def _inline_pred(mods: List[pf.Module], e: ast.AST, depth: int = 3) -> Tuple[ast
         bind.update({k.arg: k.value for k in e.keywords})  # type: ignore[misc]
         if set(bind) != set(ps):
             return e, mods
-        flat = _flat(fn, body[-1].value)
+        flat = branchy if branchy is not None else _flat(fn, body[-1].value)
 
         class Sub(ast.NodeTransformer):
             def visit_Name(self, node):
@@ -922,8 +1034,449 @@ def _desugar_returns(fn: pf.FuncDef, want: Sequence[str]) -> pf.FuncDef:
     return new
 
 
+def _inline_deep(mods: List[pf.Module], e: ast.AST, carry: Sequence[str], depth: int = 3,
+                 exclude: Sequence[str] = ()) -> Tuple[ast.AST, List[pf.Module], List[Tuple[pf.Module, pf.FuncDef, ast.Call]]]:
+    """e with every call of a straight-line repository function whose ARGUMENTS carry one of the names in `carry` replaced by the expression it returns (innermost
+    first, then again inside the result, bounded).  Calls that carry none of these names stay as they are: opaque symbols for the analyses below.
+    Returns (expression, module search list, helpers seen through as (module, function, call))."""
+    import copy
+    cur = list(mods)
+    through: List[Tuple[pf.Module, pf.FuncDef, ast.Call]] = []
+
+    def go(x: ast.AST, d: int) -> ast.AST:
+        class T(ast.NodeTransformer):
+            def visit_Call(self, node: ast.Call):
+                self.generic_visit(node)
+                if d <= 0 or not any(_uses(a, carry) for a in list(node.args) + [k.value for k in node.keywords]) or pf.dotted(node.func) in exclude:
+                    return node
+                new, mods2 = _inline_pred(cur, node)
+                if new is node:
+                    return node
+                callee = None
+                for mm in cur:
+                    if isinstance(node.func, ast.Name):
+                        rr = _resolve_symbol(mm, node.func.id)
+                        if rr is not None and isinstance(rr[1], ast.FunctionDef):
+                            callee = rr
+                            break
+                if callee is not None:
+                    through.append((callee[0], callee[1], node))  # type: ignore[arg-type]
+                cur[:] = mods2
+                return go(new, d - 1)
+        return T().visit(copy.deepcopy(x))
+    return go(e, depth), cur, through
+
+
+def _shift_div(e: ast.AST) -> Optional[Tuple[ast.AST, Fraction, str]]:
+    """(a, D, direction) if e is a rounded division of a by the positive CONSTANT D written with // or >>:  a // D and a >> k round down;
+    (a + D - 1) // D, (a + (D - 1)) >> k ... (constant addend exactly D - 1) round up."""
+    if not (isinstance(e, ast.BinOp) and isinstance(e.op, (ast.FloorDiv, ast.RShift))):
+        return None
+    k = _const_num(e.right)
+    if k is None or k <= 0 or k.denominator != 1:
+        return None
+    D = Fraction(2) ** int(k) if isinstance(e.op, ast.RShift) else k
+    terms: List[Tuple[int, ast.AST]] = []
+
+    def flat(x: ast.AST, sign: int) -> None:
+        if isinstance(x, ast.BinOp) and isinstance(x.op, ast.Add):
+            flat(x.left, sign)
+            flat(x.right, sign)
+        elif isinstance(x, ast.BinOp) and isinstance(x.op, ast.Sub):
+            flat(x.left, sign)
+            flat(x.right, -sign)
+        else:
+            terms.append((sign, x))
+    flat(e.left, 1)
+    consts = [(sg, _const_num(t)) for sg, t in terms if _const_num(t) is not None]
+    rest = [(sg, t) for sg, t in terms if _const_num(t) is None]
+    if len(rest) != 1 or rest[0][0] != 1:
+        return None
+    add = sum((sg * c for sg, c in consts), Fraction(0))   # type: ignore[operator]
+    if add == 0:
+        return rest[0][1], D, 'down'
+    if add == D - 1:
+        return rest[0][1], D, 'up'
+    return None
+
+
+_ROUNDINGS = ('int', 'float', 'round', 'math.ceil', 'ceil', 'math.floor', 'floor', 'math.trunc')
+
+
+def _monoform(e: ast.AST, var: str, depth: int = 12) -> Optional[Tuple[Fraction, Dict[str, int], int]]:
+    """e as a monomial  c * var**n * prod(opaque**k)  with every rounding ignored (what e approximates); opaque = a maximal sub-expression that does not use `var`
+    and is not a number.  None: not a monomial (sums of unlike terms ...)."""
+    if depth <= 0:
+        return None
+    k = _const_num(e)
+    if k is not None:
+        return k, {}, 0
+    if isinstance(e, ast.Name):
+        return (Fraction(1), {}, 1) if e.id == var else (Fraction(1), {e.id: 1}, 0)
+    if not _uses(e, [var]) and (isinstance(e, (ast.Attribute, ast.Subscript, ast.IfExp)) or (isinstance(e, ast.Call) and (pf.dotted(e.func) or '') not in _ROUNDINGS
+                                                                                   and (pf.dotted(e.func) or '').split('.')[-1] != 'round_up_division')):
+        return Fraction(1), {pf.nsrc(e): 1}, 0      # an atomic quantity of the environment (per-core memory of the pool's worker type ...)
+
+    def mul(a, b, sign=1):
+        if a is None or b is None:
+            return None
+        ex = dict(a[1])
+        for s_, n_ in b[1].items():
+            ex[s_] = ex.get(s_, 0) + sign * n_
+        ex = {s_: n_ for s_, n_ in ex.items() if n_}
+        if sign == -1 and b[0] == 0:
+            return None
+        return (a[0] * b[0] if sign == 1 else a[0] / b[0]), ex, a[2] + sign * b[2]
+    sd = _shift_div(e)
+    if sd is not None:
+        return mul(_monoform(sd[0], var, depth - 1), (sd[1], {}, 0), -1)
+    cd = _ceil_div(e)
+    if cd is not None:
+        return mul(_monoform(cd[0], var, depth - 1), _monoform(cd[1], var, depth - 1), -1)
+    if isinstance(e, ast.Call) and not e.keywords:
+        f = pf.dotted(e.func) or ''
+        if f in _ROUNDINGS and len(e.args) == 1:
+            return _monoform(e.args[0], var, depth - 1)
+        if f.split('.')[-1] == 'round_up_division' and len(e.args) == 2:
+            return mul(_monoform(e.args[0], var, depth - 1), _monoform(e.args[1], var, depth - 1), -1)
+        return None
+    if isinstance(e, ast.BinOp):
+        if isinstance(e.op, ast.Mult):
+            return mul(_monoform(e.left, var, depth - 1), _monoform(e.right, var, depth - 1))
+        if isinstance(e.op, (ast.Div, ast.FloorDiv)):
+            return mul(_monoform(e.left, var, depth - 1), _monoform(e.right, var, depth - 1), -1)
+        if isinstance(e.op, (ast.LShift, ast.RShift)):
+            kk = _const_num(e.right)
+            if kk is None or kk.denominator != 1 or kk < 0:
+                return None
+            return mul(_monoform(e.left, var, depth - 1), (Fraction(2) ** int(kk), {}, 0), 1 if isinstance(e.op, ast.LShift) else -1)
+    if isinstance(e, ast.UnaryOp) and isinstance(e.op, ast.UAdd):
+        return _monoform(e.operand, var, depth - 1)
+    return None
+
+
+def _worker_type_status(m: pf.Module, e: ast.AST) -> str:
+    """Does the sizing expression e (helpers seen through) take its per-core figure from the pool's own worker type?  'ok': self.worker_type occurs in it (directly or inside
+    a method of the class that it calls); 'unknown': it reads other state of self that may encapsulate the worker type; 'bad': it reads nothing of self at all."""
+    if any(pf.nsrc(n) == 'self.worker_type' for n in ast.walk(e)):
+        return 'ok'
+    other_self = False
+    for n in ast.walk(e):
+        if isinstance(n, ast.Call) and isinstance(n.func, ast.Attribute) and isinstance(n.func.value, ast.Name) and n.func.value.id == 'self':
+            inl, _ = _inline_pred([m], n)
+            if inl is not n and any(pf.nsrc(x) == 'self.worker_type' for x in ast.walk(inl)):
+                return 'ok'
+            other_self = True
+        elif isinstance(n, ast.Attribute) and isinstance(n.value, ast.Name) and n.value.id == 'self' and n.attr != 'cloud':
+            other_self = True
+    return 'unknown' if other_self else 'bad'
+
+
+PACK = 'adjust_cores_for_packability'
+
+
+def _replace_src(e: ast.AST, target_src: str, name: str) -> Tuple[ast.AST, int]:
+    """copy of e with every sub-expression whose source is `target_src` replaced by the name `name`; how many were replaced"""
+    import copy
+    n = [0]
+
+    class T(ast.NodeTransformer):
+        def visit(self, node):
+            if isinstance(node, ast.expr) and pf.nsrc(node) == target_src:
+                n[0] += 1
+                return ast.copy_location(ast.Name(id=name, ctx=ast.Load()), node)
+            return self.generic_visit(node)
+    return T().visit(copy.deepcopy(e)), n[0]
+
+
+def _rel_to(e: ast.AST, target_src: str) -> str:
+    """how e relates to its sub-expression(s) `target_src`: 'ge' (never smaller), 'lower' (a recognised lowering: min / subtraction / division ...), 'indep' (does not contain it),
+    'unknown'.  adjust_cores_for_packability(x) >= x (it rounds up to a packable size: trusted, the float arithmetic is not decided)."""
+    e2, n = _replace_src(e, target_src, '__t__')
+    if n == 0:
+        return 'indep'
+
+    class P(ast.NodeTransformer):
+        def visit_Call(self, node: ast.Call):
+            self.generic_visit(node)
+            if pf.dotted(node.func) == PACK and len(node.args) == 1 and not node.keywords:
+                return ast.copy_location(ast.Call(func=ast.Attribute(value=ast.Name(id='math', ctx=ast.Load()), attr='ceil', ctx=ast.Load()), args=node.args, keywords=[]), node)
+            return node
+    return _rel_prev(ast.fix_missing_locations(P().visit(e2)), '__t__')
+
+
+def _path_label(facts: Sequence[Tuple[ast.expr, bool]]) -> str:
+    """'gcp branch' / 'azure branch' if the path took an arm of a test of the cloud, else 'every cloud'"""
+    neg = []
+    for e, pol in facts:
+        c = _cloud_of_test(e)
+        if c is None:
+            continue
+        if pol:
+            return f'{c} branch'
+        neg.append(c)
+    if neg:
+        rest = [x for x in CLOUDS if x not in neg]
+        if len(rest) == 1:
+            return f'{rest[0]} branch'
+    return 'every cloud'
+
+
+def _hoist_common_max(e: ast.AST) -> ast.AST:
+    """(max(k, A) if c else max(k, B))  ==  max(k, (A if c else B))   (same for min): a helper that splits on the cloud and combines the same core figure on each arm"""
+    class H(ast.NodeTransformer):
+        def visit_IfExp(self, node: ast.IfExp):
+            self.generic_visit(node)
+            a, b = node.body, node.orelse
+            if isinstance(a, ast.Call) and isinstance(b, ast.Call) and pf.dotted(a.func) in ('max', 'min') and pf.dotted(a.func) == pf.dotted(b.func) \
+                    and len(a.args) == 2 and len(b.args) == 2 and not a.keywords and not b.keywords:
+                for i in (0, 1):
+                    for j in (0, 1):
+                        if pf.nsrc(a.args[i]) == pf.nsrc(b.args[j]):
+                            rest = ast.IfExp(test=node.test, body=a.args[1 - i], orelse=b.args[1 - j])
+                            return ast.fix_missing_locations(ast.copy_location(ast.Call(func=a.func, args=[a.args[i], rest], keywords=[]), node))
+            return node
+    import copy
+    return H().visit(copy.deepcopy(e))
+
+
+_ADJUST_SEEN: Set[Tuple[str, str]] = set()
+
+
+def _monomial_parts(e: ast.AST, var: str) -> List[ast.AST]:
+    """the maximal sub-expressions of e that are monomials of degree one in `var` (rounding ignored)"""
+    mf = _monoform(e, var)
+    if mf is not None and mf[2] == 1:
+        return [e]
+    if not _uses(e, [var]):
+        return []
+    out: List[ast.AST] = []
+    for c in ast.iter_child_nodes(e):
+        if isinstance(e, ast.Call) and c is e.func:
+            continue
+        if isinstance(c, ast.expr):
+            out += _monomial_parts(c, var)
+    return out
+
+
+def _check_memory_sizing(ctx: Ctx, m: pf.Module, fn: pf.FuncDef, qual: str, cons0_of, p_cores: str, p_mem: str) -> None:
+    """R2 (structure) and R5 (direction, units) of the memory clause on the CLOSED FORMS of the returned cores / memory: every feasible path to a returned placement is
+    executed symbolically (engines/c12sym: locals substituted, one case per branch combination, nothing is run), pure helpers - per-cloud or shared, of any module - are
+    seen through, and the rules look at what the granted cores C and memory M are as functions of the request:
+        C >= max(requested cores, T(requested memory, per-core memory))      M >= E(C, per-core memory)      T never rounds the request down      units of T x E cancel
+    An if/else over the cloud with one helper per cloud, a single path through shared helpers, fresh locals, guard clauses and hoisted statements are all the same to it."""
+    paths = c12sym.exec_paths(fn)
+    placements = [p_ for p_ in paths if p_.kind == 'return' and isinstance(p_.value, ast.Tuple) and len(p_.value.elts) == 3]
+    ctx.need(placements, f'{qual}: no path returns a placement')
+    done: Set[Tuple[str, str]] = set()
+
+    def ok(rule: str, key: str, detail=None) -> None:
+        if (rule, key) not in done:
+            done.add((rule, key))
+            ctx.ok(rule, key, detail)
+
+    def bad(rule: str, key: str, msg: str, line: int) -> None:
+        if (rule, key) not in done:
+            done.add((rule, key))
+            ctx.bad(rule, key, msg, m.path, line)
+
+    def defer(msg: str) -> None:
+        _DEFERRED.append(f'{qual}: {msg}')
+    for pr in placements:
+        C, M, _S = pr.value.elts  # type: ignore[union-attr]
+        label = _path_label(pr.facts)
+        consb = f'{FI}::{qual}::{label}'
+        cons0 = cons0_of(pr)
+        line = pr.lineno
+        Csrc = pf.nsrc(C)
+        carry = [p_cores, p_mem]
+        C_inl, _mods, through = _inline_deep([m], C, carry, exclude=(PACK,))
+        C_inl = _hoist_common_max(C_inl)
+        shownC = short(pf.nsrc(C), 120)
+        # ---- cores: raised for the memory request, never lowered afterwards
+        cores_bad = False
+        if not _uses(C_inl, [p_mem]):
+            cl = label.split()[0] if label != 'every cloud' else '<cloud>'
+            bad('R2', consb + '::memory raises cores', f'on the path [{pr.conds()}] the granted cores are `{shownC}`, which does not depend on the requested `{p_mem}` at all - no '
+                f'`{cl}_adjust_cores_for_memory_request({p_cores}, {p_mem}, …)` / `max({p_cores}, <minimum for {p_mem}>)`: the granted memory is cores x memory-per-core of the '
+                f'*requested* cores, which is less than the requested memory (e.g. cpu=0.25, memory=10Gi)', line)
+            continue
+        cands = [n for n in ast.walk(C_inl) if isinstance(n, ast.Call) and pf.dotted(n.func) in ('max', 'min') and not n.keywords
+                 and any(_uses(a, [p_mem]) for a in n.args) and any(_uses(a, [p_cores]) and not _uses(a, [p_mem]) for a in n.args)]
+        # nested candidates: keep the innermost ones that combine the requested cores with a memory-driven figure
+        cands = [c for c in cands if not any(o is not c and any(o is x for x in ast.walk(c)) for o in cands)]
+        if len(cands) != 1:
+            defer(f'the granted cores `{shownC}` depend on `{p_mem}` but not through one max({p_cores}, <minimum for {p_mem}>) ({len(cands)} candidates)')
+            continue
+        R = cands[0]
+        terms = [a for a in R.args if _uses(a, [p_mem])]
+        keeps = [a for a in R.args if _uses(a, [p_cores]) and not _uses(a, [p_mem])]
+        if len(terms) != 1 or len(keeps) != 1:
+            defer(f'`{short(pf.nsrc(R), 80)}` does not combine one core figure with one memory-driven figure')
+            continue
+        T = terms[0]
+        is_max = pf.dotted(R.func) == 'max'
+        rel_c = _rel_to(C_inl, pf.nsrc(R))
+        rel_k = _rel_to(keeps[0], p_cores) if not (isinstance(keeps[0], ast.Name) and keeps[0].id == p_cores) else 'ge'
+        if rel_c == 'lower' or rel_k == 'lower':
+            cores_bad = True
+            bad('R2', cons0 + '::cores::lowered', f'the granted cores are `{short(pf.nsrc(C_inl), 160)}`: after being derived from the request (`{short(pf.nsrc(R), 60)}`) they are LOWERED '
+                f'(min / subtraction / division) before the placement is returned: a request that the pool accepts is granted fewer cores than it asked for (the placement no longer '
+                f'covers the request)', line)
+        elif rel_c != 'ge' or rel_k != 'ge':
+            defer(f'how the granted cores `{short(pf.nsrc(C_inl), 100)}` relate to `{short(pf.nsrc(R), 60)}` is not classified')
+            continue
+        else:
+            ok('R2', cons0 + '::cores::never lowered', {'granted_cores': short(pf.nsrc(C_inl), 200)})
+        wts = _worker_type_status(m, T)
+        if wts == 'unknown':
+            defer(f'`{short(pf.nsrc(T), 60)}`: where the per-core memory comes from (self.worker_type?) is not visible')
+        elif wts == 'bad':
+            bad('R2', consb + '::memory raises cores', f'`{short(pf.nsrc(R), 120)}` does not take ({p_cores}, {p_mem}, …, self.worker_type): the per-core memory is not that of '
+                f'self.worker_type: the core count is not raised to cover the requested memory on this pool\'s worker type', line)
+        else:
+            ok('R2', consb + '::memory raises cores', short(pf.nsrc(R), 160))
+        # ---- R5 on the raise: helper on its own, then the whole request -> core minimum computation
+        helper_bad = False
+        tops = [(hm, hf, call) for hm, hf, call in through if not any(isinstance(x, ast.If) for x in hf.body)
+                and isinstance(_flat(hf, next((r_.value for r_ in pf.walk_shallow(hf) if isinstance(r_, ast.Return) and r_.value is not None), ast.Constant(value=None))), ast.Call)
+                and pf.dotted(_flat(hf, next(r_.value for r_ in pf.walk_shallow(hf) if isinstance(r_, ast.Return) and r_.value is not None)).func) in ('max', 'min')]  # type: ignore[union-attr]
+        for hm, hf, call in tops:
+            helper_bad = _check_adjust_helper(ctx, hm, hf, call, [p_cores], p_mem) or helper_bad
+        if not tops:
+            if is_max:
+                ok('R5', f'{FI}::{qual}::{label}::>= requested cores')
+            else:
+                bad('R5', f'{FI}::{qual}::{label}::>= requested cores', f'`{short(pf.nsrc(R), 90)}` is not of the form max({p_cores}, …): fewer cores than requested can be granted '
+                    f'(e.g. cpu=8, memory=1Gi)', line)
+        elif not is_max:
+            helper_bad = True      # reported on the helper
+        shown = short(pf.nsrc(T), 140)
+        consr = f'{FI}::{qual}::{label}::requested memory -> core minimum'
+        if not helper_bad:
+            dirn = _direction(fn, T, p_mem)
+            if dirn in ('exact', 'up'):
+                ok('R5', consr + ' never rounds down')
+            else:
+                bad('R5', consr + ' never rounds down',
+                    f'on the way from the requested `{p_mem}` to the core minimum - `{shown}` (helpers seen through: {", ".join(dict.fromkeys(hf.name for _, hf, _ in through)) or "none"}) - the '
+                    f'request is {"rounded DOWN" if dirn == "down" else "rounded DOWN at one step and up at another"}: the part of the request below that granularity is dropped before the '
+                    f'cores are rounded up, so cores x memory-per-core can fall short of the request. E.g. a request one byte (or half a MiB) above k cores\' worth of memory - '
+                    f'cpu=1, memory=\'3840.5Mi\' on a 3840 MiB/core pool - is granted k cores = 4026531840 bytes < 4027056128 requested', line)
+            if _numer(fn, T, p_mem):
+                ok('R5', consr + ' grows with the request')
+            else:
+                bad('R5', consr + ' grows with the request', f'`{shown}` does not grow with {p_mem}: more memory does not raise the core count', line)
+        # ---- memory: derived from the FINAL cores, never lowered afterwards
+        if isinstance(M, ast.Name) and M.id == p_mem:
+            ok('R2', consb + '::memory from final cores', 'the requested memory itself is granted')
+            continue
+        M1, n_occ = _replace_src(M, Csrc, '__cores__')
+        if n_occ == 0:
+            if cores_bad:
+                continue
+            # derived from an earlier stage of the core count?
+            subs = sorted({pf.nsrc(x) for x in ast.walk(C) if isinstance(x, ast.Call) or (isinstance(x, ast.Name) and x.id == p_cores)} - {Csrc}, key=len, reverse=True)
+            early = [x for x in subs if _replace_src(M, x, '__x__')[1] > 0]
+            if early and _rel_to(C, early[0]) == 'ge':
+                bad('R2', consb + '::memory from final cores', f'the granted memory `{short(pf.nsrc(M), 110)}` is derived from `{short(early[0], 80)}`, the core count BEFORE it is final '
+                    f'(the granted cores are `{shownC}`): the granted memory is computed for fewer cores than are granted and can be below the requested memory', line)
+            else:
+                defer(f'the granted memory `{short(pf.nsrc(M), 80)}` is not derived from the granted cores `{shownC}` (not a recognised shape)')
+            continue
+        M_inl, _m2, _t2 = _inline_deep([m], M1, ['__cores__'])
+        parts = _monomial_parts(M_inl, '__cores__')
+        if len({pf.nsrc(x) for x in parts}) != 1:
+            defer(f'the granted memory `{short(pf.nsrc(M_inl), 100)}` is not built from one cores x per-core conversion')
+            continue
+        D = parts[0]
+        rel_m = 'ge' if D is M_inl else _rel_to(M_inl, pf.nsrc(D))
+        if rel_m == 'lower':
+            bad('R2', cons0 + '::memory::lowered', f'the granted memory is `{short(pf.nsrc(M_inl), 160).replace("__cores__", "<granted cores>")}`: after being derived from the granted cores '
+                f'(`{short(pf.nsrc(D), 70).replace("__cores__", "<granted cores>")}`) it is LOWERED '
+                f'(min / subtraction / division) before the placement is returned: a request that the pool accepts is granted less memory than it asked for', line)
+            continue
+        if rel_m != 'ge':
+            defer(f'how the granted memory `{short(pf.nsrc(M_inl), 100)}` relates to `{short(pf.nsrc(D), 60)}` is not classified')
+            continue
+        ok('R2', cons0 + '::memory::never lowered', {'granted_memory': short(pf.nsrc(M_inl), 200)})
+        ok('R2', consb + '::memory from final cores', {'cores': shownC})
+        wts = _worker_type_status(m, D)
+        if wts == 'unknown':
+            defer(f'`{short(pf.nsrc(D), 60)}`: where the per-core memory comes from (self.worker_type?) is not visible')
+        elif wts == 'ok':
+            ok('R2', consb + '::memory uses pool worker type')
+        else:
+            bad('R2', consb + '::memory uses pool worker type', f'`{short(pf.nsrc(D), 100)}` does not use self.worker_type: memory is computed for another worker type than the pool\'s', line)
+        # ---- units: (request -> cores) x (cores -> memory) >= 1
+        a, b = _monoform(T, p_mem), _monoform(D, '__cores__')
+        consu = f'{FI}::{qual}::{label}::request -> cores -> memory units'
+        if a is None or b is None or a[2] != 1 or b[2] != 1:
+            defer(f'`{shown}` / `{short(pf.nsrc(D), 80)}` are not monomials in the request / the cores (units not compared)')
+            continue
+        ex = dict(a[1])
+        for s_, n_ in b[1].items():
+            ex[s_] = ex.get(s_, 0) + n_
+        ex = {s_: n_ for s_, n_ in ex.items() if n_}
+        if ex:
+            defer(f'the per-core quantities of `{shown}` and `{short(pf.nsrc(D), 80)}` do not cancel ({sorted(ex)}): units not compared')
+            continue
+        prod = a[0] * b[0]
+        if prod >= 1:
+            ok('R5', consu, {'request_to_cores': str(a[0]), 'cores_to_memory': str(b[0])})
+        else:
+            bad('R5', consu, f'cores are raised to `{shown}` (= {a[0]} x {p_mem} / per-core) and memory is then `{short(pf.nsrc(D), 100).replace("__cores__", "<granted cores>")}` (= {b[0]} x cores x per-core): '
+                f'together {prod} x the request, i.e. the granted memory is only {float(prod):.4f} of the requested memory (a unit mix-up such as MB vs MiB)', line)
+
+
+
+def _check_adjust_helper(ctx: Ctx, hm: pf.Module, hf: pf.FuncDef, call: ast.Call, v_cores: Sequence[str], p_mem: str) -> bool:
+    """R5 on the helper that raises the cores for a memory request, judged on its own parameters (which one receives the cores / the request is read off the call).
+    Returns True if the helper itself rounds the wrong way (reported here)."""
+    ps = _params(hf)
+    bind: Dict[str, ast.AST] = dict(zip(ps, call.args))
+    bind.update({k.arg: k.value for k in call.keywords if k.arg})
+    pm = [p_ for p_, a in bind.items() if _uses(a, [p_mem])]
+    pc = [p_ for p_, a in bind.items() if _uses(a, v_cores) and p_ not in pm]
+    name = hf.name
+    ctx.need(len(pc) == 1 and len(pm) == 1, f'{name}: cannot tell which parameters receive the cores / the memory request in `{short(pf.nsrc(call), 60)}`')
+    key = (hm.rel, name)
+    rets = [n for n in pf.walk_shallow(hf) if isinstance(n, ast.Return)]
+    ctx.need(len(rets) == 1 and rets[0].value is not None, f'{name}: expected one return')
+    cons = f'{hm.rel}::{name}'
+    v = _flat(hf, rets[0].value)
+    if not isinstance(v, ast.Call):
+        v = pf.resolve_expr(hf, rets[0].value)
+    if isinstance(v, ast.Call) and pf.dotted(v.func) == 'min' and not _ge_param(hf, rets[0].value, pc[0]):
+        if key not in _ADJUST_SEEN:
+            _ADJUST_SEEN.add(key)
+            ctx.bad('R5', cons + '::>= requested cores', f'`{short(pf.nsrc(rets[0]), 70)}` is not of the form max({pc[0]}, …): fewer cores than requested can be granted (e.g. cpu=8, memory=1Gi)',
+                    hm.path, rets[0].lineno)
+        return True
+    ctx.need(isinstance(v, ast.Call) and pf.dotted(v.func) == 'max', f'{name}: return is not max(...)')
+    others = [a for a in v.args if not (isinstance(a, ast.Name) and a.id == pc[0])]
+    mem_terms = [a for a in others if _mentions(hf, a, pm[0])]
+    ctx.need(len(mem_terms) == 1, f'{name}: expected one memory-driven term in `{pf.nsrc(v)}`, found {len(mem_terms)}')
+    t = mem_terms[0]
+    d = _direction(hf, t, pm[0])
+    if key in _ADJUST_SEEN:
+        return d not in ('exact', 'up')
+    _ADJUST_SEEN.add(key)
+    ctx.check(_ge_param(hf, rets[0].value, pc[0]), 'R5', cons + '::>= requested cores',
+              f'`{short(pf.nsrc(rets[0]), 70)}` is not of the form max({pc[0]}, …): fewer cores than requested can be granted (e.g. cpu=8, memory=1Gi)', hm.path, rets[0].lineno)
+    shown = short(pf.nsrc(pf.expand_locals(hf, t)), 110)
+    ctx.check(d in ('exact', 'up'), 'R5', cons + '::memory minimum rounds up',
+              f'the memory-driven core minimum `{shown}` is {"rounded DOWN" if d == "down" else "rounded in both directions"} on the way from {pm[0]}: the granted cores x '
+              f'memory-per-core can fall below the requested memory (e.g. a request just above a whole multiple of the unit that is floored)', hm.path, rets[0].lineno)
+    ctx.check(_numer(hf, t, pm[0]), 'R5', cons + '::memory / per-core', f'`{shown}` does not grow with {pm[0]}: more memory does not raise the core count', hm.path, rets[0].lineno)
+    return d not in ('exact', 'up')
+
+
 def _check_convert(ctx: Ctx, m: pf.Module, facts: Facts) -> None:
     qual = 'PoolConfig.convert_requests_to_resources'
+    m0 = m
+    # same-class helper methods (statement-level calls) are spliced in first: `cores = self._cores_for(cores, memory)` is the helper's body
+    m, _il = inline.inline_methods(m0, 'PoolConfig', 'convert_requests_to_resources')
     fn = _desugar_returns(m.func(qual), WANT3)
     params = _params(fn)
     ctx.need(len(params) == 4, f'{qual}: parameters {params}')
@@ -949,19 +1502,35 @@ def _check_convert(ctx: Ctx, m: pf.Module, facts: Facts) -> None:
         v_cores, v_mem, v_sto = [e.id for e in tup.elts]
         # fits one worker
         starts = guards.def_nodes(cfg, v_cores) + ([cfg.entry] if v_cores in params else [])
-        path = guards.unguarded_path(cfg, facts, starts, lambda n: n is r, lambda e, pol: _fits_fact(e, pol, v_cores) == 'ok')
-        if path is None:
-            ctx.ok('R2', cons0 + '::fits one worker', f'{v_cores} <= self.worker_cores * 1000')
+        path = guards.unguarded_path(cfg, facts, starts, lambda n: n is r, lambda e, pol: _fits_fact(_expand_except(fn, e, [v_cores]), pol, v_cores) == 'ok')
+        clamped = False
+        if path is not None:
+            # cores = min(<anything>, 1000 * self.worker_cores) fits by construction (whether clamping is allowed is the provenance rule's business)
+            rdefs, rentry = _reaching(cfg, v_cores, r)
+            vals = [_assigned_value(d_, v_cores) for d_ in rdefs]
+            clamped = bool(rdefs) and not rentry and all(
+                isinstance(v_, ast.Call) and pf.dotted(v_.func) == 'min' and not v_.keywords
+                and any((_monoform(_expand_except(fn, a_, [v_cores]), '__none__') or (0, {}, 0))[:2] == (1000, {'self.worker_cores': 1}) for a_ in v_.args) for v_ in vals)
+        if path is None or clamped:
+            ctx.ok('R2', cons0 + '::fits one worker', f'{v_cores} <= self.worker_cores * 1000' if path is None else f'{v_cores} = min(…, self.worker_cores * 1000)')
         else:
-            related = [(_fits_fact(e, pol, v_cores), pf.nsrc(e)) for n in cfg.nodes if n.kind == 'test' and isinstance(n.ast, ast.expr)
+            related = [(_fits_fact(_expand_except(fn, e, [v_cores]), pol, v_cores), pf.nsrc(e)) for n in cfg.nodes if n.kind == 'test' and isinstance(n.ast, ast.expr)
                        for lab in ('T', 'F') for e, pol in facts.edge(n, lab)]
             strict = [t for k, t in related if k == 'strict']
+            scaled = [(k, t) for k, t in related if k in ('loose', 'tight')]
             other = [t for k, t in related if k == 'other']
+            # an opaque predicate over the returned cores on the way (a helper that may hold the guard): not decided
+            opaque = [short(n.text(), 50) for n in path if n.kind == 'test' and isinstance(n.ast, ast.expr)
+                      and any(isinstance(c, ast.Call) and v_cores in pf.names_in(c) and (pf.dotted(c.func) or '') not in ('isinstance', 'len') for c in ast.walk(n.ast))]
             if strict:
                 msg = (f'the guard is `{strict[0]}` (strict): a request that exactly fills a worker ({v_cores} == worker_cores*1000) is rejected although this pool satisfies it')
-            elif other:
-                msg = f'the placement is guarded by `{other[0]}`, which does not bound the returned `{v_cores}` by self.worker_cores * 1000'
+            elif scaled:
+                k, t = scaled[0]
+                msg = (f'the placement is guarded by `{t}`, whose bound is not 1000 x self.worker_cores (mCPU per core): '
+                       + ('a job larger than any worker of the pool is accepted and can never be scheduled' if k == 'loose' else 'requests that fit on one worker are rejected'))
             else:
+                ctx.need(not other, f'{qual}: the placement is guarded by `{other[0] if other else ""}`, which the analysis cannot relate to `{v_cores} <= self.worker_cores * 1000` (not decided)')
+                ctx.need(not opaque, f'{qual}: `{opaque[0] if opaque else ""}` may hold the fits-one-worker guard (not followed)')
                 msg = f'the placement is returned without `{v_cores} <= self.worker_cores * 1000` {guards.fmt_path(path)}: a job larger than any worker of the pool is accepted and can never be scheduled'
             ctx.bad('R2', cons0 + '::fits one worker', msg, m.path, r.lineno)
         # storage: derived from the request by requested_storage_bytes_to_actual_storage_gib (exactly one such definition), never None, never lowered afterwards
@@ -980,42 +1549,11 @@ def _check_convert(ctx: Ctx, m: pf.Module, facts: Facts) -> None:
                   'an unsatisfiable storage request is accepted instead of rejected', m.path, r.lineno)
         # provenance: what is returned is what was derived from the request - no later definition lowers it
         _provenance(ctx, m, fn, cfg, qual, r, v_sto, 'storage', is_sto_base, cons, req_param=p_sto, unit=_bytes_per_gib())
-        _provenance(ctx, m, fn, cfg, qual, r, v_cores, 'cores',
-                    lambda v: isinstance(v, ast.Call) and ((pf.dotted(v.func) or '').endswith('_adjust_cores_for_memory_request') or pf.dotted(v.func) == 'adjust_cores_for_packability'),
-                    cons0 + '::cores')
-        _provenance(ctx, m, fn, cfg, qual, r, v_mem, 'memory', lambda v: isinstance(v, ast.Call) and (pf.dotted(v.func) or '').endswith('_cores_mcpu_to_memory_bytes'),
-                    cons0 + '::memory')
-        # cloud branches: memory raises cores before memory is derived
-        branches = _cloud_branches(fn)
-        ctx.need(len(branches) == 2, f'{qual}: expected an if/else over self.cloud with two branches, found {len(branches)}')
-        for cloud, stmts, line in branches:
-            consb = f'{FI}::{qual}::{cloud} branch'
-            assigns = [s for s in stmts if isinstance(s, ast.Assign) and len(s.targets) == 1 and isinstance(s.targets[0], ast.Name)]
-            others = [s for s in stmts if s not in assigns and not isinstance(s, ast.Assert)]
-            ctx.need(not others, f'{qual}: {cloud} branch contains `{short(pf.nsrc(others[0]), 40)}` (unrecognised shape)' if others else '')
-            idx_adjust = [i for i, s in enumerate(assigns) if s.targets[0].id == v_cores and isinstance(s.value, ast.Call)  # type: ignore[union-attr]
-                          and (pf.dotted(s.value.func) or '').endswith('_adjust_cores_for_memory_request')]
-            idx_mem = [i for i, s in enumerate(assigns) if s.targets[0].id == v_mem]  # type: ignore[union-attr]
-            idx_cores = [i for i, s in enumerate(assigns) if s.targets[0].id == v_cores]  # type: ignore[union-attr]
-            if not idx_adjust:
-                ctx.bad('R2', consb + '::memory raises cores', f'no `{v_cores} = {cloud}_adjust_cores_for_memory_request({v_cores}, {p_mem}, …)`: the granted memory is '
-                        f'cores x memory-per-core of the *requested* cores, which is less than the requested memory (e.g. cpu=0.25, memory=10Gi)', m.path, line)
-            else:
-                c = assigns[idx_adjust[0]].value
-                a = [pf.nsrc(x) for x in c.args]  # type: ignore[union-attr]
-                ctx.check(len(a) >= 2 and a[0] == v_cores and a[1] == p_mem and 'self.worker_type' in a, 'R2', consb + '::memory raises cores',
-                          f'`{short(pf.nsrc(c), 90)}` does not take ({v_cores}, {p_mem}, …, self.worker_type): the core count is not raised to cover the '
-                          'requested memory on this pool\'s worker type', m.path, c.lineno)
-            ctx.need(len(idx_mem) == 1, f'{qual}: {cloud} branch assigns `{v_mem}` {len(idx_mem)} times')
-            ms = assigns[idx_mem[0]].value
-            okm = isinstance(ms, ast.Call) and (pf.dotted(ms.func) or '').endswith('_cores_mcpu_to_memory_bytes') and ms.args and pf.nsrc(ms.args[0]) == v_cores
-            ctx.need(okm, f'{qual}: {cloud} branch: `{v_mem} = {short(pf.nsrc(ms), 50)}` is not <cloud>_cores_mcpu_to_memory_bytes({v_cores}, …)')
-            ctx.check(idx_cores and idx_mem[0] > max(idx_cores), 'R2', consb + '::memory from final cores',
-                      f'`{v_mem}` is derived from `{v_cores}` before the core count is final: the granted memory is computed for fewer cores than are '
-                      'granted and can be below the requested memory', m.path, assigns[idx_mem[0]].lineno)
-            ctx.check('self.worker_type' in [pf.nsrc(x) for x in ms.args], 'R2', consb + '::memory uses pool worker type',  # type: ignore[union-attr]
-                      f'`{short(pf.nsrc(ms), 80)}` does not use self.worker_type: memory is computed for another worker type than the pool\'s', m.path, ms.lineno)
+    if all(_roles(r.ast.value.elts) == WANT3 for r in placements):  # type: ignore[union-attr]
+        _check_memory_sizing(ctx, m, fn, qual, lambda pr: f'{FI}::{qual}::return {short(pf.nsrc(pr.node.value), 60)}' if pr.node is not None and getattr(pr.node, 'value', None) is not None
+                             else f'{FI}::{qual}::return', p_cores, p_mem)
     # job-private
+    m = m0
     qualj = 'JobPrivateInstanceManagerConfig.convert_requests_to_resources'
     fj = m.func(qualj)
     pj = _params(fj)
@@ -1049,21 +1587,6 @@ def _cloud_of_test(t: ast.AST) -> Optional[str]:
         if (a.split('.')[-1] in ('cloud', 'CLOUD')) and b in ("'gcp'", "'azure'"):
             return b.strip("'")
     return None
-
-
-def _cloud_branches(fn: pf.FuncDef) -> List[Tuple[str, List[ast.stmt], int]]:
-    out: List[Tuple[str, List[ast.stmt], int]] = []
-    for n in pf.walk_shallow(fn):
-        if isinstance(n, ast.If) and _cloud_of_test(n.test) and n.orelse:
-            c = _cloud_of_test(n.test)
-            out.append((c, n.body, n.lineno))  # type: ignore[arg-type]
-            other = None
-            if n.orelse and isinstance(n.orelse[0], ast.Assert):
-                other = _cloud_of_test(n.orelse[0].test)
-            if other is None:
-                other = [x for x in CLOUDS if x != c][0]
-            out.append((other, n.orelse, n.orelse[0].lineno))
-    return out
 
 
 # --------------------------------------------------------------------------------------
@@ -1178,6 +1701,69 @@ def _check_kept(ctx: Ctx, m: pf.Module, fn: pf.FuncDef, qual: str, names: Sequen
             ctx.ok('R2', cons)
 
 
+def _check_request_kept(ctx: Ctx, m: pf.Module, fn: pf.FuncDef, cfg: pf.CFG, qual: str, call: ast.Call, callee_params: List[str]) -> None:
+    """R2 at the entrance of the chain: what the front end hands to select_inst_coll as the requested cores / memory / storage is the figure it parsed from the job
+    spec - no definition on the way lowers it (floor to a coarser unit, min, subtraction).  The placement is sized for the figure passed here, so a lowered
+    request is granted less than the job asked for although every later stage is right."""
+    args: Dict[str, ast.AST] = dict(zip(callee_params, call.args))
+    args.update({k.arg: k.value for k in call.keywords if k.arg})
+    nodes = cfg.node_of(call)
+    ctx.need(nodes, f'{qual}: select_inst_coll call not found in the CFG')
+    for par, a in args.items():
+        if _role(par) not in WANT3:
+            continue
+        cons = f'{FE}::{qual}::requested {_role(par)} reaches select_inst_coll as parsed'
+        if not isinstance(a, ast.Name):
+            rel = 'ge'
+            parses = [x for x in ast.walk(a) if isinstance(x, ast.Call) and (pf.dotted(x.func) or '').startswith('parse_')]
+            if parses:
+                rel = _rel_to(a, pf.nsrc(parses[0]))
+            ctx.need(rel in ('ge', 'lower'), f'{qual}: argument `{short(pf.nsrc(a), 50)}` for `{par}` is not classified')
+            ctx.check(rel == 'ge', 'R2', cons, f'`{short(pf.nsrc(a), 80)}` passes a LOWERED request as `{par}`: the placement is sized for less {_role(par)} than the job asked for', m.path, call.lineno)
+            continue
+        nm = a.id
+        seen: List[pf.Node] = []
+        work = [nodes[0]]
+        bad = None
+        unknown = None
+        while work and bad is None:
+            tgt = work.pop()
+            defs, _entry = _reaching(cfg, nm, tgt)
+            for d in defs:
+                if any(d is x for x in seen):
+                    continue
+                seen.append(d)
+                v = _assigned_value(d, nm)
+                if v is None:
+                    unknown = unknown or d
+                    continue
+                if not _uses(v, [nm]):
+                    # a base definition: parsed from the spec (or derived from the parsed cores); a lowering wrapped around the parse call counts
+                    parses = [x for x in ast.walk(v) if isinstance(x, ast.Call) and (pf.dotted(x.func) or '').startswith('parse_')]
+                    if parses and v is not parses[0]:
+                        r0 = _rel_to(v, pf.nsrc(parses[0]))
+                        if r0 == 'lower':
+                            bad = d
+                        elif r0 != 'ge':
+                            unknown = unknown or d
+                    continue
+                rel = _rel_prev(v, nm)
+                if rel == 'ge':
+                    work.append(d)
+                elif rel == 'lower':
+                    bad = d
+                else:
+                    unknown = unknown or d
+        if bad is not None:
+            ctx.bad('R2', cons, f'`{short(bad.text(), 90)}` (line {bad.lineno}) LOWERS the requested {_role(par)} after it was parsed from the job spec and before it is handed to '
+                    f'select_inst_coll as `{par}`: the placement is sized for the lowered figure, so the job is granted less {_role(par)} than it asked for (e.g. a request that is not a '
+                    f'whole multiple of the coarser unit loses the remainder)', m.path, bad.lineno)
+        elif unknown is not None:
+            _DEFERRED.append(f'{qual}: `{short(unknown.text(), 60)}` re-defines the requested {_role(par)} in a way the analysis does not classify')
+        else:
+            ctx.ok('R2', cons, {'definitions': len(seen)})
+
+
 def _check_front_end(ctx: Ctx, mi: pf.Module) -> None:
     m = pf.load(FE)
     sites = []
@@ -1191,6 +1777,7 @@ def _check_front_end(ctx: Ctx, mi: pf.Module) -> None:
     for qual, fn, c in sites:
         _check_call_names(ctx, m, qual, c, _params(callee)[1:], fn, 'InstanceCollectionConfigs.select_inst_coll', file=FE)
         cfg = pf.cfg(fn)
+        _check_request_kept(ctx, m, fn, cfg, qual, c, _params(callee)[1:])
         # result variable
         asg = [n for n in cfg.nodes if n.kind == 'stmt' and isinstance(n.ast, ast.Assign) and any(x is c for x in ast.walk(n.ast.value))]
         ctx.need(len(asg) == 1 and isinstance(asg[0].ast.targets[0], ast.Tuple) and len(asg[0].ast.targets[0].elts) == 2  # type: ignore[union-attr]
@@ -1346,10 +1933,15 @@ def _direction(fn: pf.FuncDef, e: ast.AST, p: str, depth: int = 8) -> str:
         if _mentions(fn, b, p):
             raise AnalysisError(f'divisor `{pf.nsrc(b)}` depends on {p}')
         return comb(_direction(fn, a, p, depth - 1), 'up')
+    sd = _shift_div(e)
+    if sd is not None and sd[2] == 'up':          # (a + 2**k - 1) >> k, (a + D - 1) // D with a literal D
+        return comb(_direction(fn, sd[0], p, depth - 1), 'up')
     if isinstance(e, ast.Call):
         f = pf.dotted(e.func) or ''
         if f in ('math.ceil', 'ceil') and len(e.args) == 1:
             return comb(_direction(fn, e.args[0], p, depth - 1), 'up')
+        if f == 'int' and len(e.args) == 1 and isinstance(e.args[0], ast.Name) and e.args[0].id == p:
+            return 'exact'        # int() of the integer request itself
         if f in ('math.floor', 'floor', 'int', 'math.trunc') and len(e.args) == 1:
             return comb(_direction(fn, e.args[0], p, depth - 1), 'down')
         if f == 'round':
@@ -1382,6 +1974,8 @@ def _direction(fn: pf.FuncDef, e: ast.AST, p: str, depth: int = 8) -> str:
         raise AnalysisError(f'unrecognised operator in `{pf.nsrc(e)}`')
     if isinstance(e, ast.UnaryOp) and isinstance(e.op, ast.UAdd):
         return _direction(fn, e.operand, p, depth - 1)
+    if isinstance(e, ast.IfExp) and not _mentions(fn, e.test, p):
+        return comb(_direction(fn, e.body, p, depth - 1), _direction(fn, e.orelse, p, depth - 1))      # a case split on something else: the worse arm counts
     raise AnalysisError(f'unrecognised expression `{pf.nsrc(e)}` on a value derived from {p}')
 
 
@@ -1441,6 +2035,8 @@ def _numer(fn: pf.FuncDef, e: ast.AST, p: str, depth: int = 8) -> bool:
         return _numer(fn, cd[0], p, depth - 1)
     if isinstance(e, ast.Call) and e.args:
         return any(_numer(fn, a, p, depth - 1) for a in e.args)
+    if isinstance(e, ast.IfExp):
+        return _numer(fn, e.body, p, depth - 1) and _numer(fn, e.orelse, p, depth - 1)
     if isinstance(e, ast.BinOp):
         if isinstance(e.op, (ast.Mult, ast.Add)):
             return _numer(fn, e.left, p, depth - 1) or _numer(fn, e.right, p, depth - 1)
@@ -1452,32 +2048,6 @@ def _numer(fn: pf.FuncDef, e: ast.AST, p: str, depth: int = 8) -> bool:
 def _check_shapes(ctx: Ctx) -> None:
     for rel, cloud in ((FG, 'gcp'), (FA, 'azure')):
         m = pf.load(rel)
-        # adjust cores for memory
-        name = f'{cloud}_adjust_cores_for_memory_request'
-        fn = m.func(name)
-        ps = _params(fn)
-        ctx.need(len(ps) >= 2 and _role(ps[0]) == 'cores' and _role(ps[1]) == 'memory', f'{name}: parameters {ps}')
-        rets = [n for n in pf.walk_shallow(fn) if isinstance(n, ast.Return)]
-        ctx.need(len(rets) == 1 and rets[0].value is not None, f'{name}: expected one return')
-        cons = f'{rel}::{name}'
-        ctx.check(_ge_param(fn, rets[0].value, ps[0]), 'R5', cons + '::>= requested cores',
-                  f'`{short(pf.nsrc(rets[0]), 70)}` is not of the form max({ps[0]}, …): fewer cores than requested can be granted (e.g. cpu=8, memory=1Gi)', m.path, rets[0].lineno)
-        # the memory-driven minimum is never below the real quotient request / per-core memory: decided by a direction analysis of the
-        # arithmetic (exact | up = rounded up | down = rounded down | mixed), not by the spelling of the rounding
-        v = _flat(fn, rets[0].value)
-        if not isinstance(v, ast.Call):
-            v = pf.resolve_expr(fn, rets[0].value)
-        ctx.need(isinstance(v, ast.Call) and pf.dotted(v.func) == 'max', f'{name}: return is not max(...)')
-        others = [a for a in v.args if not (isinstance(a, ast.Name) and a.id == ps[0])]
-        mem_terms = [a for a in others if _mentions(fn, a, ps[1])]
-        ctx.need(len(mem_terms) == 1, f'{name}: expected one memory-driven term in `{pf.nsrc(v)}`, found {len(mem_terms)}')
-        t = mem_terms[0]
-        d = _direction(fn, t, ps[1])
-        shown = short(pf.nsrc(pf.expand_locals(fn, t)), 110)
-        ctx.check(d in ('exact', 'up'), 'R5', cons + '::memory minimum rounds up',
-                  f'the memory-driven core minimum `{shown}` is {"rounded DOWN" if d == "down" else "rounded in both directions"} on the way from {ps[1]}: the granted cores x '
-                  f'memory-per-core can fall below the requested memory (e.g. a request just above a whole multiple of the unit that is floored)', m.path, rets[0].lineno)
-        ctx.check(_numer(fn, t, ps[1]), 'R5', cons + '::memory / per-core', f'`{shown}` does not grow with {ps[1]}: more memory does not raise the core count', m.path, rets[0].lineno)
         # storage
         name = f'{cloud}_requested_to_actual_storage_bytes'
         fn = m.func(name)
@@ -1513,18 +2083,26 @@ def _check_shapes(ctx: Ctx) -> None:
     ps = _params(fn)
     sto = [p for p in ps if _role(p) == 'storage' and not p.startswith('allow')]
     ctx.need(len(sto) == 1, f'requested_storage_bytes_to_actual_storage_gib: parameters {ps}')
-    calls = [c for c in pf.calls_in(fn) if (pf.dotted(c.func) or '').endswith('_requested_to_actual_storage_bytes')]
-    ctx.need(len(calls) == 2, 'requested_storage_bytes_to_actual_storage_gib: expected one per-cloud call each')
-    for c in calls:
-        ctx.check(bool(c.args) and pf.nsrc(c.args[0]) == sto[0], 'R5', f'{FU}::requested_storage_bytes_to_actual_storage_gib::{pf.dotted(c.func)}',
-                  f'`{short(pf.nsrc(c), 70)}` is not applied to {sto[0]}', m.path, c.lineno)
-    rets = [n for n in pf.walk_shallow(fn) if isinstance(n, ast.Return) and n.value is not None and not (isinstance(n.value, ast.Constant) and n.value.value is None)]
-    ctx.need(len(rets) == 1, 'requested_storage_bytes_to_actual_storage_gib: expected one value-bearing return')
-    rv = rets[0].value
-    tgt = {pf.nsrc(t) for n in pf.walk_shallow(fn) if isinstance(n, ast.Assign) and any(n.value is c for c in calls) for t in n.targets}
-    okr = isinstance(rv, ast.Call) and pf.dotted(rv.func) == 'round_storage_bytes_to_gib' and len(rv.args) == 1 and pf.nsrc(rv.args[0]) in tgt and len(tgt) == 1
-    ctx.check(okr, 'R5', f'{FU}::requested_storage_bytes_to_actual_storage_gib::return',
-              f'`{short(pf.nsrc(rets[0]), 70)}` is not round_storage_bytes_to_gib(<actual bytes of the request>)', m.path, rets[0].lineno)
+    # closed form of every value-bearing return (engines/c12sym: the per-cloud function may be called in each arm, or selected in the arms and called once afterwards)
+    name = 'requested_storage_bytes_to_actual_storage_gib'
+    vals = [p_ for p_ in c12sym.exec_paths(fn) if p_.kind == 'return' and p_.value is not None and not (isinstance(p_.value, ast.Constant) and p_.value.value is None)]
+    ctx.need(vals, f'{name}: no value-bearing return')
+    seen_f: Set[str] = set()
+    for pr in vals:
+        v = pr.value
+        ctx.need(isinstance(v, ast.Call) and pf.dotted(v.func) == 'round_storage_bytes_to_gib' and len(v.args) == 1 and not v.keywords,
+                 f'{name}: on the path [{pr.conds()}] it returns `{short(pf.nsrc(v), 60)}`, not round_storage_bytes_to_gib(<actual bytes>) (not a recognised shape)')
+        x = v.args[0]  # type: ignore[union-attr]
+        ctx.need(isinstance(x, ast.Call) and (pf.dotted(x.func) or '').endswith('_requested_to_actual_storage_bytes'),
+                 f'{name}: on the path [{pr.conds()}] the rounded quantity `{short(pf.nsrc(x), 60)}` is not <cloud>_requested_to_actual_storage_bytes(...) (not a recognised shape)')
+        f = pf.dotted(x.func)  # type: ignore[union-attr]
+        if f in seen_f:
+            continue
+        seen_f.add(f)  # type: ignore[arg-type]
+        ctx.check(bool(x.args) and pf.nsrc(x.args[0]) == sto[0], 'R5', f'{FU}::{name}::{f}',  # type: ignore[union-attr]
+                  f'`{short(pf.nsrc(x), 70)}` is not applied to {sto[0]}: the storage granted is sized for another quantity than the request', m.path, pr.lineno)
+    # (that each cloud's path uses that cloud's conversion is R6)
+    ctx.ok('R5', f'{FU}::{name}::return', 'round_storage_bytes_to_gib(<actual bytes of the request>) on every path')
 
 
 # --------------------------------------------------------------------------------------
@@ -1564,7 +2142,8 @@ def _check_dispatch_agreement(ctx: Ctx, rels: Sequence[str]) -> None:
                 nonlocal n_regions
                 for i, st in enumerate(stmts):
                     if isinstance(st, ast.If):
-                        c = _cloud_of_test(st.test)
+                        # a boolean local holding the test (`is_gcp = cloud == 'gcp'`) is followed to its definition
+                        c = _cloud_of_test(pf.resolve_expr(fn, st.test) if isinstance(st.test, ast.Name) else st.test)
                         if c is not None:
                             regions: List[Tuple[str, Sequence[ast.stmt]]] = [(c, st.body)]
                             if st.orelse:
@@ -1957,10 +2536,11 @@ def run(ctx: Ctx) -> None:
                        'fits-one-worker guard and storage provenance of every returned placement; truth table of select_inst_coll; like-named argument plumbing and '
                        'tuple role order along front end -> select_inst_coll -> selector -> convert; max/ceil shape typing of the granted>=requested helpers; per-cloud dispatch agreement.')
     ctx.rule('R1', 'pool selectors use a pool only after pool.cloud/preemptible/label (and worker_type) equal the request; job-private checks the cloud', 8)
-    ctx.rule('R2', 'every pool placement is guarded by cores_mcpu <= worker_cores*1000, has storage from the request (not None), memory raises cores before memory is derived; no later definition lowers the granted cores / memory / storage (pool, job-private, selectors, front end)', 23)
+    ctx.rule('R2', 'every pool placement is guarded by cores_mcpu <= worker_cores*1000, has storage from the request (not None), memory raises cores before memory is derived; no later definition lowers the granted cores / memory / storage (pool, job-private, selectors, front end)', 20)
     ctx.rule('R3', 'rejection only after all pools; select_inst_coll dispatch table; front end maps None to HTTP 400 before use', 11)
     ctx.rule('R4', 'placement tuples are (name, cores, memory, storage) at every writer/reader; arguments go to like-named parameters along the chain', 17)
-    ctx.rule('R5', 'granted >= requested shapes: max(cores, ceil(memory/per-core)), storage returns >= request, bytes->GiB rounds up', 15)
+    ctx.rule('R5', 'granted >= requested: cores = max(cores, minimum for the memory request); the request -> core minimum computation (helpers seen through) never rounds down and its units '
+             'cancel against cores -> memory; storage returns >= request, bytes->GiB rounds up', 13)
     ctx.rule('R6', 'in every cloud == X branch only X helpers are used (anchored modules)', 26)
     ctx.rule('R7', 'selection is computed against the configs in force: no memo, or a memo keyed by all parameters and emptied atomically after the configs are replaced', 1)
     ctx.rule('R8', 'the live configuration containers the selectors read (self.name_pool_config ...) are never emptied / published empty with a suspension point before they are '
@@ -1970,6 +2550,7 @@ def run(ctx: Ctx) -> None:
     mi = pf.load(FI)
     ctx.unit('files', 5)
     del _DEFERRED[:]
+    _ADJUST_SEEN.clear()
     _check_memo(ctx, mi)
     _check_atomic_refresh(ctx, mi)
     facts = Facts()
